@@ -1,5 +1,326 @@
-/- C10: statements are being proved (see git history); placeholder keeps the module buildable. -/
-import GoSnaps.Clean
+/-
+C10 — Clean's rewrites preserve content; sorting is an idempotent permutation.
+
+Statements only; the proofs call `Lemmas/Clean.lean`.  Everything is about the executable model
+definitions in Clean.lean / Natural.lean / Format.lean (compared with the real code by the
+correspondence suites `clean.*`).
+
+`exScan` takes `examineSnaps`' own `update` flag: a stale entry is always reported, but its body
+is skipped only when `update = true`; in report-only mode it is collected like a kept one, so a
+sort-only rewrite re-emits it (repair of defect D5).
+
+Setting: a snapshot file `render es` that is a `CleanFile`: every header is recognised by
+`getTestID` (`Recognised`: `e.id = "[" ++ tid ++ "]"` and `getTestID e.id = some tid`), the ids are
+distinct, the bodies are `Escaped`, the lines are scanner-clean (`C01.WF`).  (`getTestID` never
+panics: `getTestID_never_panics`.)  An id is *kept* (`keptId`) when it is registered in
+this run or protected by the skip rules, *stale* (`staleId`) when it is neither;
+`Classified` = no oracle miss.
+-/
+import GoSnaps.Lemmas.Clean
+import GoSnaps.Props.C01
 namespace GoSnaps.C10
-theorem isNumber_nil : isNumber [] = true := by decide
+
+open GoSnaps
+
+theorem CleanFile.wf {es : List Entry} (h : CleanFile es) : C01.WF es := ⟨h.idNoNL, h.noCR⟩
+
+/-- `Recognised` in the form of the task statement -/
+theorem recognised_def (e : Entry) :
+    Recognised e ↔ ∃ tid, e.id = 91 :: tid ++ [93] ∧ getTestID e.id = some tid :=
+  recognised_iff e
+
+/-- the slice expression of `getTestID` is never out of range, so the model's `.panics` outcome
+    is unreachable and needs no hypothesis -/
+theorem getTestID_never_panics (b : Text) : getTestIDPanics b = false := getTestIDPanics_false b
+
+/-! ## 1. the scan of a rendered file -/
+
+/-- **General form.** Scanning `render es`: every id is listed; exactly the stale ids are
+reported, in file order, and `hasDiffs` says whether there is a stale one; the *stored* entries
+(each with `body ++ "\n"`) are the kept ones when `update = true`, and ALL entries, kept and
+stale, when `update = false` (a report-only run collects a stale body instead of skipping it, so
+that a sort-only rewrite re-emits it).  Body lines are consumed in collecting/skipping mode and
+never tested with `getTestID`, so header-looking body lines are harmless (no such hypothesis
+appears). -/
+theorem exScan_render (o : Oracles) (registered skipped : List Text) (runOnly : Text)
+    (update : Bool) (es : List Entry) (hf : CleanFile es)
+    (hcls : ∀ e ∈ es, Classified o registered skipped runOnly (tidOf e)) :
+    exScan o registered skipped runOnly update (scan (render es)) .outer {} =
+      { testIDs := es.map tidOf,
+        tests := (es.filter (fun e => keptId o registered skipped runOnly (tidOf e) || !update)).map
+          (fun e => (tidOf e, e.body ++ [nl])),
+        obsolete := (es.filter (fun e => !keptId o registered skipped runOnly (tidOf e))).map tidOf,
+        hasDiffs := es.any (fun e => !keptId o registered skipped runOnly (tidOf e)),
+        missing := false } :=
+  exScan_cleanFile o registered skipped runOnly update es hf hcls
+
+/-- clean mode: only the kept entries are stored -/
+theorem exScan_render_clean (o : Oracles) (registered skipped : List Text) (runOnly : Text)
+    (es : List Entry) (hf : CleanFile es)
+    (hcls : ∀ e ∈ es, Classified o registered skipped runOnly (tidOf e)) :
+    (exScan o registered skipped runOnly true (scan (render es)) .outer {}).tests =
+      (es.filter (fun e => keptId o registered skipped runOnly (tidOf e))).map
+        (fun e => (tidOf e, e.body ++ [nl])) := by
+  rw [exScan_render o registered skipped runOnly true es hf hcls]; simp
+
+/-- report-only mode: every entry is stored, stale ones included -/
+theorem exScan_render_report (o : Oracles) (registered skipped : List Text) (runOnly : Text)
+    (es : List Entry) (hf : CleanFile es)
+    (hcls : ∀ e ∈ es, Classified o registered skipped runOnly (tidOf e)) :
+    (exScan o registered skipped runOnly false (scan (render es)) .outer {}).tests =
+      es.map (fun e => (tidOf e, e.body ++ [nl])) := by
+  rw [exScan_render o registered skipped runOnly false es hf hcls]
+  have : es.filter (fun e => keptId o registered skipped runOnly (tidOf e) || !false) = es :=
+    List.filter_eq_self.mpr (fun _ _ => by simp)
+  simp only [this]
+
+/-- every id registered or skip-protected: nothing is obsolete, nothing differs -/
+theorem exScan_render_all_kept (o : Oracles) (registered skipped : List Text) (runOnly : Text)
+    (update : Bool) (es : List Entry) (hf : CleanFile es)
+    (hall : ∀ e ∈ es, keptId o registered skipped runOnly (tidOf e) = true) :
+    exScan o registered skipped runOnly update (scan (render es)) .outer {} =
+      { testIDs := es.map tidOf, tests := es.map (fun e => (tidOf e, e.body ++ [nl])),
+        obsolete := [], hasDiffs := false, missing := false } := by
+  rw [exScan_render o registered skipped runOnly update es hf (fun e he => Or.inl (hall e he))]
+  have h1 : es.filter (fun e => keptId o registered skipped runOnly (tidOf e) || !update) = es :=
+    List.filter_eq_self.mpr (fun e he => by simp [hall e he])
+  have h2 : es.any (fun e => !keptId o registered skipped runOnly (tidOf e)) = false := by
+    rw [List.any_eq_false]; intro e he; simp [hall e he]
+  rw [h1, h2, filter_eq_nil_of_any_false _ _ h2]; rfl
+
+/-- without distinctness of the ids the stored map is "last assignment wins" (Go map) -/
+theorem exScan_render_lastWins (o : Oracles) (registered skipped : List Text) (runOnly : Text)
+    (update : Bool)
+    (es : List Entry) (hrec : ∀ e ∈ es, Recognised e) (hesc : ∀ e ∈ es, Escaped e.body)
+    (hcls : ∀ e ∈ es, Classified o registered skipped runOnly (tidOf e)) :
+    (exScan o registered skipped runOnly update (fileLines es) .outer {}).tests =
+      ((es.filter (fun e => keptId o registered skipped runOnly (tidOf e) || !update)).map
+        (fun e => (tidOf e, e.body ++ [nl]))).foldl (fun m kv => testsSet m kv.1 kv.2) [] := by
+  rw [exScan_fileLines_nil o registered skipped runOnly update es hrec hesc hcls,
+    foldl_stepEntry_tests]
+  rfl
+
+/-- concrete file: `[TestB - 1]` (stale; its body contains the header-looking line
+    `[TestZ - 9]`) followed by `[TestA - 1]` (registered); clean mode, then report-only mode -/
+example :
+    let e1 : Entry := ⟨[91, 84, 101, 115, 116, 66, 32, 45, 32, 49, 93],
+      [120, 10, 91, 84, 101, 115, 116, 90, 32, 45, 32, 57, 93]⟩
+    let e2 : Entry := ⟨[91, 84, 101, 115, 116, 65, 32, 45, 32, 49, 93], [121]⟩
+    CleanFile [e1, e2] ∧
+    exScan {} [[84, 101, 115, 116, 65, 32, 45, 32, 49]] [] [] true (scan (render [e1, e2])) .outer {} =
+      { testIDs := [[84, 101, 115, 116, 66, 32, 45, 32, 49], [84, 101, 115, 116, 65, 32, 45, 32, 49]],
+        tests := [([84, 101, 115, 116, 65, 32, 45, 32, 49], [121, 10])],
+        obsolete := [[84, 101, 115, 116, 66, 32, 45, 32, 49]],
+        hasDiffs := true, missing := false } ∧
+    exScan {} [[84, 101, 115, 116, 65, 32, 45, 32, 49]] [] [] false (scan (render [e1, e2])) .outer {} =
+      { testIDs := [[84, 101, 115, 116, 66, 32, 45, 32, 49], [84, 101, 115, 116, 65, 32, 45, 32, 49]],
+        tests := [([84, 101, 115, 116, 66, 32, 45, 32, 49],
+                   [120, 10, 91, 84, 101, 115, 116, 90, 32, 45, 32, 57, 93, 10]),
+                  ([84, 101, 115, 116, 65, 32, 45, 32, 49], [121, 10])],
+        obsolete := [[84, 101, 115, 116, 66, 32, 45, 32, 49]],
+        hasDiffs := true, missing := false } :=
+  ⟨⟨by decide, by decide, by decide, by decide, by decide⟩, by decide, by decide⟩
+
+/-! ## 2. the rewrite loop re-emits the original frame -/
+
+theorem cleanFrame_eq (tid body : Text) :
+    cleanFrame tid (body ++ [nl]) = some (frame ⟨91 :: tid ++ [93], body⟩) :=
+  GoSnaps.cleanFrame_eq tid body
+
+example : cleanFrame [84, 101, 115, 116, 65, 32, 45, 32, 49] [121, 10, 122, 10] =
+    some (frame ⟨[91, 84, 101, 115, 116, 65, 32, 45, 32, 49, 93], [121, 10, 122]⟩) := by decide
+
+/-! ## 3. a rewrite preserves every kept entry -/
+
+/-- **What a rewrite writes.** With the scan result of `exScan_render` (`tests` = the stored
+entries, i.e. those selected by `K`: the kept ones in clean mode, all of them in report-only
+mode) and *any* id list `ids`, the rewrite loop never fails and writes exactly
+`render (reorder stored ids)`: the stored entries selected and ordered by `ids`, each with its
+original header and body, byte for byte. -/
+theorem rewrite_preserves (es : List Entry) (hf : CleanFile es) (K : Text → Bool) (ids : List Text) :
+    let kept := es.filter (fun e => K (tidOf e))
+    let frames := rewriteFrames (kept.map (fun e => (tidOf e, e.body ++ [nl]))) ids
+    frames.any (·.isNone) = false ∧
+    (frames.filterMap (fun x => x)).flatten = render (reorder kept ids) :=
+  have hrec : ∀ e ∈ es.filter (fun e => K (tidOf e)), Recognised e :=
+    fun e he => hf.recognised e (List.mem_filter.mp he).1
+  ⟨rewriteFrames_noFail _ ids hrec, rewriteFrames_bytes _ ids hrec⟩
+
+/-- for a permutation `ids` of the file's ids the written entries are a permutation of the kept
+    entries; for the file's own order they are the kept entries in file order -/
+theorem rewrite_is_perm (es : List Entry) (hf : CleanFile es) (K : Text → Bool) (ids : List Text)
+    (hperm : ids.Perm (es.map tidOf)) :
+    (reorder (es.filter (fun e => K (tidOf e))) ids).Perm (es.filter (fun e => K (tidOf e))) :=
+  reorder_perm es _ ids hf.distinct hperm
+
+theorem rewrite_same_order (es : List Entry) (hf : CleanFile es) (K : Text → Bool) :
+    reorder (es.filter (fun e => K (tidOf e))) (es.map tidOf) = es.filter (fun e => K (tidOf e)) :=
+  reorder_filter_self es _ hf.distinct
+
+/-- **Each kept entry replays the same body** after any rewrite along a permutation `ids`:
+`getPrevSnapshot` on the rewritten file returns the original body.  `hns` excludes bodies that
+contain a line equal to another entry's header (finding D9, needed by `C01.getPrev_render`). -/
+theorem kept_replays (es : List Entry) (hf : CleanFile es)
+    (hns : ∀ a ∈ es, ∀ b ∈ es, a.id ∉ lines b.body)
+    (K : Text → Bool) (ids : List Text) (hperm : ids.Perm (es.map tidOf))
+    (pre : List Entry) (e : Entry) (post : List Entry)
+    (hsplit : reorder (es.filter (fun e => K (tidOf e))) ids = pre ++ e :: post) :
+    getPrev e.id (render (pre ++ e :: post)) = some (e.body, (fileLines pre).length + 2) := by
+  obtain ⟨hf2, hsub'⟩ := cleanFile_reorder es hf (fun e => K (tidOf e)) ids hperm
+  have hsub := fun e he => (hsub' e he).1
+  rw [hsplit] at hf2 hsub
+  have hid := (hf2.recognised e (by simp)).id_eq
+  exact C01.getPrev_render pre e post (CleanFile.wf hf2) (by rw [hid]; simp)
+    (hf2.escaped e (by simp))
+    (hf2.noShadow (fun b hb => hns e (hsub e (by simp)) b (hsub b (by simp [hb]))))
+
+/-- the rewritten three-entry file of the idempotence example below: both survivors replay -/
+example :
+    let e2 : Entry := ⟨[91, 84, 101, 115, 116, 66, 32, 45, 32, 49, 93], [121]⟩
+    let e3 : Entry := ⟨[91, 84, 101, 115, 116, 65, 32, 45, 32, 50, 93], [122]⟩
+    getPrev e3.id (render [e3, e2]) = some ([122], 2) ∧
+    getPrev e2.id (render [e3, e2]) = some ([121], 6) := by decide
+
+/-- **User-facing: pruning.**  `examineSnaps` on one used file, `update = true`, `sort = false`,
+at least one stale entry: reports the stale ids and writes exactly the kept entries, unchanged and
+in file order. -/
+theorem clean_update_writes_kept (o : Oracles) (fs : FS) (cleanup : List (RegKey × Nat))
+    (skipped : List Text) (p runOnly : Text) (count : Nat) (registered : List Text)
+    (es : List Entry) (hf : CleanFile es) (hread : fsRead fs p = some (render es))
+    (hreg : registeredFor cleanup p count = some registered)
+    (hcls : ∀ e ∈ es, Classified o registered skipped runOnly (tidOf e))
+    (hstale : es.any (fun e => !keptId o registered skipped runOnly (tidOf e)) = true) :
+    examineSnaps o fs cleanup skipped [p] runOnly count true false =
+      .ok ((es.filter (fun e => !keptId o registered skipped runOnly (tidOf e))).map tidOf)
+        (fsWrite fs p (render (es.filter (fun e => keptId o registered skipped runOnly (tidOf e)))))
+        [p] := by
+  rw [examineSnaps_single o registered skipped runOnly fs cleanup p count true false es hf hread
+    hreg hcls]
+  simp [cleanOutcome, hstale, reorder_filter_self es _ hf.distinct]
+
+/-- **User-facing: files needing neither pruning nor sorting are not written.**  Nothing stale,
+and either `sort = false` or the ids already sorted: no write, `fs` unchanged, nothing reported
+(whatever `update` is). -/
+theorem clean_nothing_to_do (o : Oracles) (fs : FS) (cleanup : List (RegKey × Nat))
+    (skipped : List Text) (p runOnly : Text) (count : Nat) (update sort : Bool)
+    (registered : List Text)
+    (es : List Entry) (hf : CleanFile es) (hread : fsRead fs p = some (render es))
+    (hreg : registeredFor cleanup p count = some registered)
+    (hall : ∀ e ∈ es, keptId o registered skipped runOnly (tidOf e) = true)
+    (hsorted : sort = false ∨ isSortedNat (es.map tidOf) = true) :
+    examineSnaps o fs cleanup skipped [p] runOnly count update sort = .ok [] fs [] := by
+  rw [examineSnaps_single o registered skipped runOnly fs cleanup p count update sort es hf hread
+    hreg (fun e he => Or.inl (hall e he))]
+  have h2 : es.any (fun e => !keptId o registered skipped runOnly (tidOf e)) = false := by
+    rw [List.any_eq_false]; intro e he; simp [hall e he]
+  have h3 : (sort && !(isSortedNat (es.map tidOf))) = false := by
+    rcases hsorted with h | h <;> simp [h]
+  simp [cleanOutcome, h2, h3, filter_eq_nil_of_any_false _ _ h2]
+
+/-- concrete run: the two-entry file above, `TestA` registered once with `-count=1`:
+    the stale `[TestB - 1]` is reported and dropped, `[TestA - 1]` is written back verbatim -/
+example :
+    let e1 : Entry := ⟨[91, 84, 101, 115, 116, 66, 32, 45, 32, 49, 93],
+      [120, 10, 91, 84, 101, 115, 116, 90, 32, 45, 32, 57, 93]⟩
+    let e2 : Entry := ⟨[91, 84, 101, 115, 116, 65, 32, 45, 32, 49, 93], [121]⟩
+    let p : Text := [47, 115, 47, 97, 46, 115, 110, 97, 112]
+    examineSnaps {} [(p, render [e1, e2])] [((p, [84, 101, 115, 116, 65]), 1)] [] [p] [] 1 true false =
+      .ok [[84, 101, 115, 116, 66, 32, 45, 32, 49]] [(p, render [e2])] [p] := by decide
+
+/-! ## 4. the natural sort is an idempotent permutation -/
+
+/-- the sort permutes (no hypothesis on the comparator) -/
+theorem sortNat_perm (l : List Text) : (sortNat l).Perm l := GoSnaps.sortNat_perm l
+
+/-- `natLt a a` is false for every `a`, so `TotalOn` only asks for transitivity and totality -/
+theorem natLt_irrefl (a : Text) : natLt a a = false := GoSnaps.natLt_irrefl a
+
+/-- when the comparator is a strict total order on the ids present, the result is pairwise
+    ordered — exactly the check `examineSnaps` makes before trusting the sort -/
+theorem sortNat_sorted (l : List Text) (ht : TotalOn l) : allPairsOrdered (sortNat l) = true :=
+  (allPairsOrdered_iff _).mpr (sortNat_pairwise l ht)
+
+/-- … and it is the only pairwise-ordered permutation of `l` -/
+theorem sortNat_unique (l l' : List Text) (ht : TotalOn l) (hp : l'.Perm l)
+    (hs : allPairsOrdered l' = true) : l' = sortNat l :=
+  pairwise_perm_unique l' (sortNat l) (ht.perm hp.symm) (hp.trans (sortNat_perm l).symm)
+    ((allPairsOrdered_iff _).mp hs) (sortNat_pairwise l ht)
+
+/-- so the result does not depend on the order the ids were found in -/
+theorem sortNat_perm_invariant (l₁ l₂ : List Text) (ht : TotalOn l₁) (hp : l₁.Perm l₂) :
+    sortNat l₁ = sortNat l₂ :=
+  sortNat_unique l₂ (sortNat l₁) (ht.perm hp) ((sortNat_perm l₁).trans hp) (sortNat_sorted l₁ ht)
+
+theorem isSortedNat_sortNat (l : List Text) (ht : TotalOn l) : isSortedNat (sortNat l) = true :=
+  isSortedNat_of_pairwise _ (sortNat_pairwise l ht)
+
+/-- a list that passes `slices.IsSortedFunc` is left alone by the sort -/
+theorem sortNat_of_sorted (l : List Text) (ht : TotalOn l) (hs : isSortedNat l = true) :
+    sortNat l = l :=
+  (sortNat_unique l l ht (List.Perm.refl l)
+    ((allPairsOrdered_iff _).mpr (pairwise_of_isSortedNat l ht hs))).symm
+
+theorem sort_idempotent (l : List Text) (ht : TotalOn l) : sortNat (sortNat l) = sortNat l :=
+  sortNat_of_sorted _ (ht.perm (sortNat_perm l).symm) (isSortedNat_sortNat l ht)
+
+/-- `TestA - 10`, `TestA - 2`, `TestB - 1`: the comparator is total on them, and the sort puts
+    2 before 10 -/
+example :
+    let l : List Text := [[84, 101, 115, 116, 65, 32, 45, 32, 49, 48], [84, 101, 115, 116, 65, 32, 45, 32, 50],
+      [84, 101, 115, 116, 66, 32, 45, 32, 49]]
+    TotalOn l ∧ isSortedNat l = false ∧
+    sortNat l = [[84, 101, 115, 116, 65, 32, 45, 32, 50], [84, 101, 115, 116, 65, 32, 45, 32, 49, 48],
+      [84, 101, 115, 116, 66, 32, 45, 32, 49]] :=
+  ⟨⟨by decide, by decide⟩, by decide, by decide⟩
+
+/-! ## 5. Clean is idempotent on a file -/
+
+/-- **Second run, any mode.** If the file step succeeded, running it again on the resulting file
+system writes nothing and leaves the file system as it is.  In clean mode (`update = true`) it
+reports nothing obsolete; in report-only mode it reports the same stale ids again (they are
+still there — possibly in sorted order).
+`hto`: when sorting, the comparator is a strict total order on the ids of the file. -/
+theorem second_run_writes_nothing (o : Oracles) (fs : FS) (cleanup : List (RegKey × Nat))
+    (skipped : List Text) (p runOnly : Text) (count : Nat) (update sort : Bool)
+    (registered : List Text)
+    (es : List Entry) (hf : CleanFile es) (hread : fsRead fs p = some (render es))
+    (hreg : registeredFor cleanup p count = some registered)
+    (hcls : ∀ e ∈ es, Classified o registered skipped runOnly (tidOf e))
+    (hto : sort = true → TotalOn (es.map tidOf))
+    (obs : List Text) (fs' : FS) (w : List Text)
+    (hfirst : examineSnaps o fs cleanup skipped [p] runOnly count update sort = .ok obs fs' w) :
+    ∃ obs', examineSnaps o fs' cleanup skipped [p] runOnly count update sort = .ok obs' fs' [] ∧
+      (update = true → obs' = []) ∧ (update = false → obs'.Perm obs) :=
+  examineSnaps_second_run o registered skipped runOnly fs cleanup p count update sort es hf hread
+    hreg hcls hto obs fs' w hfirst
+
+/-- **Clean mode is idempotent** (`update = true`, with or without sorting): the second run
+writes nothing and reports nothing obsolete. -/
+theorem clean_idempotent (o : Oracles) (fs : FS) (cleanup : List (RegKey × Nat))
+    (skipped : List Text) (p runOnly : Text) (count : Nat) (sort : Bool) (registered : List Text)
+    (es : List Entry) (hf : CleanFile es) (hread : fsRead fs p = some (render es))
+    (hreg : registeredFor cleanup p count = some registered)
+    (hcls : ∀ e ∈ es, Classified o registered skipped runOnly (tidOf e))
+    (hto : sort = true → TotalOn (es.map tidOf))
+    (obs : List Text) (fs' : FS) (w : List Text)
+    (hfirst : examineSnaps o fs cleanup skipped [p] runOnly count true sort = .ok obs fs' w) :
+    examineSnaps o fs' cleanup skipped [p] runOnly count true sort = .ok [] fs' [] := by
+  obtain ⟨obs', h, hobs, _⟩ := second_run_writes_nothing o fs cleanup skipped p runOnly count true
+    sort registered es hf hread hreg hcls hto obs fs' w hfirst
+  rw [hobs rfl] at h; exact h
+
+/-- concrete: prune-and-sort a three-entry file (`TestA - 10` stale, `TestB - 1`, `TestA - 2`),
+    then run again: nothing written, nothing reported -/
+example :
+    let e1 : Entry := ⟨[91, 84, 101, 115, 116, 65, 32, 45, 32, 49, 48, 93], [120]⟩
+    let e2 : Entry := ⟨[91, 84, 101, 115, 116, 66, 32, 45, 32, 49, 93], [121]⟩
+    let e3 : Entry := ⟨[91, 84, 101, 115, 116, 65, 32, 45, 32, 50, 93], [122]⟩
+    let p : Text := [47, 115, 47, 97, 46, 115, 110, 97, 112]
+    let cleanup : List (RegKey × Nat) := [((p, [84, 101, 115, 116, 65]), 2), ((p, [84, 101, 115, 116, 66]), 1)]
+    let cleanup' : List (RegKey × Nat) := [((p, [84, 101, 115, 116, 65]), 2), ((p, [84, 101, 115, 116, 66]), 1)]
+    examineSnaps {} [(p, render [e1, e2, e3])] cleanup [] [p] [] 1 true true =
+      .ok [[84, 101, 115, 116, 65, 32, 45, 32, 49, 48]] [(p, render [e3, e2])] [p] ∧
+    examineSnaps {} [(p, render [e3, e2])] cleanup' [] [p] [] 1 true true =
+      .ok [] [(p, render [e3, e2])] [] := by decide
+
 end GoSnaps.C10
